@@ -359,7 +359,7 @@ def run(R):
     sites_ok = 0
     for j in jobs:
         r = byid[j[0]]
-        if j[3].get('role') == 'call' and 'grammar_error' in r:
+        if j[3].get('role') == 'call' and 'grammar_error' in r and r['grammar_error'] != 'unconfirmed-timeout':
             R.counterexample('calls', 'call-site-rejected:' + r['grammar_error'].split(':')[1], {'grammar': r['desc']},
                              'a grammar module', r['grammar_error'])
     for a, b in pairs.items():
